@@ -25,12 +25,12 @@ func init() {
 			"'bounded delay' is checked against a generous heartbeat bound, not against cooldown + epsilon",
 		},
 		Families: []core.Family{
-			{Name: "quiescence", N: core.TierN(240, 3000), Batch: 10, Run: c04Quiescence},
-			{Name: "directed-lost-wakeup", N: core.TierN(60, 600), Batch: 6, Run: c04Directed},
-			{Name: "fixed-max", N: core.TierN(100, 1000), Batch: 10, Run: c04Fixed},
-			{Name: "window-commit-with-blocked-getters", N: core.TierN(60, 600), Batch: 6, Run: c04Getters},
-			{Name: "fixed-trim-then-commit", N: core.TierN(100, 1000), Batch: 25, Run: c04TrimThenCommit},
-			{Name: "fixed-consumed-prefix", N: core.TierN(60, 600), Batch: 10, Run: c04FixedPrefix},
+			{Name: "quiescence", N: core.TierN(240, 12000), Batch: 10, Run: c04Quiescence},
+			{Name: "directed-lost-wakeup", N: core.TierN(60, 2400), Batch: 6, Run: c04Directed},
+			{Name: "fixed-max", N: core.TierN(100, 4000), Batch: 10, Run: c04Fixed},
+			{Name: "window-commit-with-blocked-getters", N: core.TierN(60, 2400), Batch: 6, Run: c04Getters},
+			{Name: "fixed-trim-then-commit", N: core.TierN(100, 4000), Batch: 25, Run: c04TrimThenCommit},
+			{Name: "fixed-consumed-prefix", N: core.TierN(60, 2400), Batch: 10, Run: c04FixedPrefix},
 		},
 	})
 }
